@@ -267,11 +267,11 @@ impl Property for C19 {
     }
     fn rule(&self, tier: Tier) -> String {
         format!(
-            "every multigraph on 1..={} modules (names s, a, ab, c, d) with 0..=2 parallel gate chains per module pair (0..=1 for {}+ modules) and optional self chains, x first chain routed directly / through one transit gate on each module / through 15 transit gates (16 hops); \
+            "every multigraph on 1..={} modules (names s, a, ab, c, d) with 0..=2 parallel gate chains per module pair (0..=1 from {} modules on) and optional self chains, x first chain routed directly / through one transit gate on each module / through 15 transit gates (16 hops); \
              per graph: global view, connected, bidirectional, spanned(root) for every root, dijkstra(src) for every source, filter_nodes for every subset (+ connected on the result), filter_edges removing every single directed edge (+ bidirectional on simple graphs); \
              oracle: reference adjacency list from the declared wiring, BFS distances; non-trivial = graph with a transit-routed chain, parallel chains, or a root with more than one neighbour",
             tier.pick(4, 5),
-            tier.pick(4, 4)
+            tier.pick(4, 5)
         )
     }
     fn assumptions(&self) -> Vec<String> {
@@ -284,7 +284,7 @@ impl Property for C19 {
         let maxn = ctx.tier.pick(4, 5);
         for n in 1..=maxn {
             let prs = pairs(n);
-            let mx = if n <= 3 { 2 } else { 1 };
+            let mx = if n <= 3 || (n == 4 && ctx.tier == Tier::Thorough) { 2 } else { 1 };
             let radix: Vec<usize> = prs.iter().map(|&(i, j)| if i == j { 2 } else { mx + 1 }).collect();
             let total: usize = radix.iter().product();
             // n = 5: self chains only on the first module to keep the space at 2^11 * transit variants
